@@ -31,8 +31,6 @@ public:
 };
 
 QXmppTuneItemPrivate::QXmppTuneItemPrivate()
-    : length(0),
-      rating(0)
 {
 }
 /// \endcond
